@@ -1,4 +1,5 @@
 mod codec;
+mod live;
 mod orch;
 mod rng;
 mod sys;
@@ -28,6 +29,8 @@ fn main() {
             None => codec::generate(seed, n, &mut *out),
         },
         "twins" => twins::generate(seed, n, &mut *out),
+        "live" => live::live(seed, n, &mut *out),
+        "teardown" => live::teardown(seed, n, &mut *out),
         "sys" => match arg(&args, "--replay") {
             Some(p) => sys::replay(p, &mut *out),
             None => sys::generate(seed, arg(&args, "--first").and_then(|s| s.parse().ok()).unwrap_or(0), n, arg(&args, "--profile").unwrap_or("mixed"), &mut *out),
